@@ -78,15 +78,21 @@ def sweep(C, tier):
     # inheritance / single blocks / components through the API, flag against the suffix rule in both directions
     for kind, val in TAINTED:
         for sfx, on_suffix in ((".html", True), (".txt", False)):
+            steps = [{"op": "add", "tpls": lib(sfx)},
+                     {"op": "render", "name": "child" + sfx, "expect_ae": on_suffix},
+                     {"op": "render_block", "name": "child" + sfx, "block": "a", "expect_ae": on_suffix},
+                     {"op": "render_block", "name": "child" + sfx, "block": "n", "expect_ae": on_suffix}]
+            jobs.append({"cfg": {"autoescape": [".html"]}, "ctx": {"v": val}, "steps": steps})
+            meta.append(("inheritance", kind, "suffix%s" % sfx, None))
             for flag in (True, False):
+                # the context of a component rendered through the API holds exactly its arguments
                 steps = [{"op": "add", "tpls": lib(sfx)},
-                         {"op": "render", "name": "child" + sfx, "expect_ae": on_suffix},
-                         {"op": "render_block", "name": "child" + sfx, "block": "a", "expect_ae": on_suffix},
-                         {"op": "render_block", "name": "child" + sfx, "block": "n", "expect_ae": on_suffix},
                          {"op": "render_component", "name": "c", "auto": flag, "expect_ae": flag},
+                         {"op": "render_component", "name": "c", "auto": flag, "body": "b", "expect_ae": flag},
+                         {"op": "render_component", "name": "outer", "auto": flag, "expect_ae": flag},
                          {"op": "render_component", "name": "outer", "auto": flag, "body": "b", "expect_ae": flag}]
-                jobs.append({"cfg": {"autoescape": [".html"]}, "ctx": {"v": val, "p": val}, "steps": steps})
-                meta.append(("inheritance+api", kind, "suffix%s flag=%s" % (sfx, flag), None))
+                jobs.append({"cfg": {"autoescape": [".html"]}, "ctx": {"p": val}, "steps": steps})
+                meta.append(("api", kind, "suffix%s flag=%s" % (sfx, flag), None))
     res = vp.traced(jobs, C, "c01-sweep", timeout=1800)
     for (route, kind, mode, on), rr, job in zip(meta, res, jobs):
         for k, x in enumerate(rr[1:], 1):
@@ -101,6 +107,8 @@ def sweep(C, tier):
                 C.violation(dict(key, kind="setup"), "sweep template refused: %r: %s" % (route, (rr[0].get("msg") or rr[0].get("disp", ""))[:200]), {"job": job})
                 break
             if not x.get("ok"):
+                if route in ("inheritance", "api") and kind == "string":
+                    C.violation(dict(key, kind="setup"), "sweep render failed (%s %s): %s" % (route, mode, (x.get("msg") or x.get("disp", ""))[:200]), {"job": job, "step": k})
                 continue                      # an error value writes nothing
             C.nontrivial([route, kind, mode, k])
             out = x.get("out", "")
